@@ -501,23 +501,23 @@ theorem inv_ite (c : Prop) [Decidable c] (x y : Stream × Res) (hx : c → Inv x
 
 theorem insertAt_inv (s : Stream) (b : Bits) (p : Option Int) (hi : Inv s) : Inv (insertAt s b p).1 := by
   unfold insertAt
+  simp only
   apply inv_ite
-  · intro _; exact hi
-  · intro _
-    simp only
+  · intro hq
     apply inv_ite
-    · intro hq
+    · intro _; exact hi
+    · intro _
       unfold Inv Stream.len at *; simp only [List.length_append, List.length_take, List.length_drop]
       omega
-    · intro _; exact hi
+  · intro _; exact hi
 
 theorem overwriteAt_inv (s : Stream) (b : Bits) (p : Option Int) (hi : Inv s) : Inv (overwriteAt s b p).1 := by
   unfold overwriteAt
-  apply inv_ite; · intro _; exact hi
-  intro _
   simp only
   apply inv_ite; · intro _; exact hi
   intro hq
+  apply inv_ite; · intro _; exact hi
+  intro _
   unfold Inv Stream.len at *; simp only [List.length_append, List.length_take, List.length_drop]
   omega
 
